@@ -261,7 +261,12 @@ class BoboDistributedTCP(BoboDistributed,
                 if self._closed:
                     self._running = False
                     break
-                self._update()
+
+            # Subscribers are notified without holding the local lock.
+            # The Decider notifies this instance while holding its own lock
+            # (see on_decider_update), so calling into the Decider while
+            # holding the local lock would invert the lock order (deadlock).
+            self._update()
 
     def subscribe(self, subscriber: BoboDistributedSubscriber) -> None:
         """
@@ -313,15 +318,15 @@ class BoboDistributedTCP(BoboDistributed,
             `False` if the update occurred on a remote (distributed) instance.
         """
         with self._lock_local:
+            # Prevents Decider from passing distributed data back
+            if not local:
+                return
+
             if self._closed:
                 raise BoboDistributedError(_EXC_CLOSED)
 
             if not self._running:
                 raise BoboDistributedError(_EXC_NOT_RUNNING)
-
-            # Prevents Decider from passing distributed data back
-            if not local:
-                return
 
             logging.debug("{} Adding local Decider changes "
                           "to outgoing queue".format(self._urn))
